@@ -46,9 +46,17 @@ class _SleepyDisconnect:
         return [('sleep', 0.25)]
 
 
+class _FarewellApp(_SleepyDisconnect):
+    """Application whose disconnect handler yields once and then says goodbye to the session that is ending."""
+    def disconnect(self, sid, reason):
+        return [('yield',), ('send', sid, 'farewell')]
+
+
 def apply_action(w, st, a):
     """Returns False when the action is not enabled in this state."""
     sid = st.sids[0] if st.sids else None
+    if a == '!farewell':
+        return True          # marker: the world was built with the farewell application
     if a.startswith('~'):
         # something that ends the session is under way and its disconnect handler is asleep when the probe arrives
         if sid is None:
@@ -130,6 +138,8 @@ def apply_action(w, st, a):
 
 def build(impl, hist):
     extra = {'behaviour': _SleepyDisconnect()} if any(a.startswith('~') for a in hist) else {}
+    if hist[:1] == ('!farewell',) or (hist and hist[0] == '!farewell'):
+        extra = {'behaviour': _FarewellApp()}
     w = peer.make_world(impl, server_kwargs=dict(ping_interval=INTERVAL, ping_timeout=TIMEOUT,
                                                  max_http_buffer_size=4000, compression_threshold=8), **extra)
     st = St()
@@ -347,6 +357,10 @@ def run(ctx):
         for h in hists:
             for i in range(len(PROBES)):
                 jobs.append((impl, h, i))
+        # farewell pass: a disconnect handler that yields and then sends to the ending session; every probe from four states
+        for base_h in (('open',), ('open', 'poll'), ('open', 'send', 'poll'), UPGRADED):
+            for i in range(len(PROBES)):
+                jobs.append((impl, ('!farewell',) + base_h, i))
         # overlap pass: every probe arrives while the disconnect handler of an ending session is asleep
         for base_h in (('open',), ('open', 'poll'), UPGRADED):
             for f in OVERLAP_FIRSTS:
@@ -369,7 +383,7 @@ def run(ctx):
         'rule': 'breadth-first search over %r to depth %d (and depth/2 further from the state reached by a completed upgrade) with de-duplication on a canonical digest of sessions, queues, pending '
                 'requests/sockets, events and next timer; in each of the distinct states each of %d probes (%d HTTP requests incl. '
                 'malformed bodies, %d API calls) is issued on a fresh replay and the world run %.0fs of virtual time past it. '
-                'An overlap pass issues every probe while the disconnect handler (0.25 s) of a session that is being ended by a bad / oversize / CLOSE POST or by disconnect(sid) is still asleep, from three base states. states = distinct digests over both servers; transitions = history steps explored + probe executions.'
+                'A farewell pass issues every probe on worlds whose disconnect handler yields and then sends to the ending session. An overlap pass issues every probe while the disconnect handler (0.25 s) of a session that is being ended by a bad / oversize / CLOSE POST or by disconnect(sid) is still asleep, from three base states. states = distinct digests over both servers; transitions = history steps explored + probe executions.'
                 % (ACTIONS, depth, len(PROBES), len([p for p in PROBES if p[0] == 'http']), len([p for p in PROBES if p[0] == 'call']), HORIZON),
         'exhaustive': True, 'bound_completed': depth, 'max_depth_reached': maxd, 'states_per_impl': per_impl,
         'violating_cases_total': nv,
